@@ -10,6 +10,10 @@ EXPRS = ["(+ .a 1)", "(concat .s \"x\")", "(? (number? .a) .a 0)", "(map .l (* .
          "(filter .l (> . 1))", "(join .l \",\")", "(match .s \"^a\")", "(format_time 0 \"%Y\")"]
 INPUT = b'{"a":1,"b":2,"s":"abc","l":[1,2,3],"f":true,"g":"k"}\n{"a":2,"b":2,"s":"xyz","l":[],"f":false,"g":"k"}\n'
 STYLES = [[], ["--output-style=json"], ["--output-style=text"], ["--output-style=csv"]]
+# every option that belongs to one output style only
+TEXT_OPTS = ["--headers", "--items-seperator=|", "--string-prefix=x", "--string-postfix=y", "--escape-sequance=,;", "--null-keyword=N", "--true-keyword=T",
+             "--false-keyword=F", "--missing-value-keyword=NA"]
+JSON_OPTS = ["--style=pretty", "--style=consise", "--utf8-strings"]
 
 
 def corrupt_expr(rnd, table, e):
@@ -184,10 +188,9 @@ def check(tier, seed, replay=None):
                 bad.append(["--set", rnd.choice(["@m=(size .l))", "@m=(size .l) junk", "@m=1 2", "@=(size .)"])])
             elif kind == "foreign-style":
                 st = rnd.choice(["json", "text", "csv"])
-                foreign = {"json": ["--headers", "--items-seperator=|", "--null-keyword=N"], "text": ["--style=pretty", "--utf8-strings"],
-                           "csv": ["--style=consise", "--headers", "--string-prefix=x", "--utf8-strings"]}[st]
+                foreign = {"json": TEXT_OPTS, "text": JSON_OPTS, "csv": TEXT_OPTS + JSON_OPTS}[st]
                 base_style = ["--output-style=" + st]
-                style = base_style + [rnd.choice(foreign)]
+                style = base_style + rnd.sample(foreign, rnd.choice([1, 1, 2, 3]))
                 base = flat(opts) + base_style
             elif kind == "csv-shape":
                 if rnd.random() < 0.5:
@@ -205,6 +208,15 @@ def check(tier, seed, replay=None):
             it = iter(sels)
             argv = [next(it) if a.startswith("--select") else a for a in argv]
             plans.append({"kind": kind, "argv": argv, "base_argv": base, "fifo": rnd.random() < 0.25})
+    if not replay:
+        # every style option on every style it does not belong to, alone and next to each other one
+        for st, foreign in (("json", TEXT_OPTS), ("text", JSON_OPTS), ("csv", TEXT_OPTS + JSON_OPTS)):
+            base = ["--select=.a =A", "--output-style=" + st]
+            for o1 in foreign:
+                plans.append({"kind": "foreign-style", "argv": base + [o1], "base_argv": base, "fifo": False})
+                for o2 in foreign:
+                    if o2 != o1 and o1.split("=")[0] != o2.split("=")[0] and (st == "csv" or o1 < o2):
+                        plans.append({"kind": "foreign-style", "argv": [o2] + base + [o1], "base_argv": base, "fifo": False})
     cases = []
     for i, p in enumerate(plans):
         if p["fifo"]:
